@@ -78,7 +78,7 @@ func pools(quick bool) []poolDef {
 		{name: "flat", patterns: flat, paths: gen.Paths([]string{"a", "b", "ab", "aa"}, depth), hosts: []string{""}, k: k},
 		{name: "deep", patterns: deep, paths: gen.Paths([]string{"a", "ab", "b"}, 4), hosts: []string{""}, k: k},
 		{name: "many-params", patterns: many, paths: gen.Paths([]string{"a", "b"}, 5), hosts: []string{""}, k: 2},
-		{name: "host", patterns: hostPats, paths: gen.Paths([]string{"a", "b"}, 2), hosts: []string{"", "a.b", "x.b", "a.x", "ab.b", "a.b:80"}, k: k},
+		{name: "host", patterns: hostPats, paths: gen.Paths([]string{"a", "b"}, 2), hosts: []string{"", "a.b", "x.b", "a.x", "ab.b", "a.b:80", "a.b.", "x.b.", "a.b.:80", "[a.b]:80"}, k: k},
 	}
 	var always []string
 	for _, s := range fanStatics(51) {
